@@ -392,7 +392,13 @@ func (c *ctx) addSer(t *T, v *V, s serCfg) {
 	term := fmt.Sprintf("CSer %s %s %s %d %s %d", s.coq(), t.coqTcomp(""), v.Coq(), scls, jterm, rt)
 	c.distinct("ser|"+s.String()+"|"+t.Sig()+"|"+t.namesDesc()+"|"+v.Describe(), true)
 	sc := s
-	c.w.Add(term, desc{Kind: "serialize", Type: t, Sig: t.Sig(), Names: t.namesDesc(), Value: v, ValueS: v.Describe(), Ser: &sc, SerS: s.String(), Impl: impl})
+	key := ""
+	if !validUTF8(t, v) {
+		// json.Marshal replaces invalid UTF-8 by U+FFFD: the document cannot denote the value (code 15)
+		key = "C03/string-invalid-utf8"
+		c.st.Hit("ser:invalid-utf8-string")
+	}
+	c.w.Add(term, desc{Kind: "serialize", Type: t, Sig: t.Sig(), Names: t.namesDesc(), Value: v, ValueS: v.Describe(), Ser: &sc, SerS: s.String(), Impl: impl, Key: key})
 }
 
 func lenBucket(n int) string {
@@ -492,7 +498,7 @@ func main() {
 		panic(err)
 	}
 	st.Evaluations = c.w.Count()
-	st.Rule = "component trees from the ABI type grammar (all 32 uint/int widths, bytes1..32, address, bool, function, string, bytes, fixed-point; T[k] k=0..3, T[], tuples of 0..4 members; every wrapper sequence of depth<=3 over a static and a dynamic base enumerated; named / unnamed / partially named / index-colliding member names); values at 0, +-1, the range ends, sign-bit patterns, dynamic data of length 0/1/31/32/33/64/65; the specification encoding (independent Go transcription, re-checked against Spec.enc in Coq) decoded at offset |pre| with trailing bytes; the minimal / exact-fit family (minimal.go: array and tuple wrappers T[1] T[2] T[3] T[] (T) (u8,T) (T,u8) (string,T,u8) (T,string) stacked to depth 3 over uint256 / bytes / string / bytes3, every dynamic leaf empty or exactly one word, every dynamic array of length 0 / 1 / 2 with minimal elements, T[n] and T[] of n = 4..33 minimal entries, nothing / 1 byte / 32 bytes after the encoding; the same values through DecodeCallData, ParseError and DecodeEventData; those blocks cut by 1/31/32/33/64 bytes, offset words moved to the last word of the block +-1, count words set to the words remaining and one more, blocks ending at the last data byte of a bytes/string/bytes<M> leaf +-1); mutated encodings (truncation/extension at word boundaries +-1, offset and count words replaced by boundary values, byte flips); every serializer combination (3 modes x 4 int x 3 byte x 4 address) with ParseJSON->Encode round trip for object/flat-array modes with hex renderings. distinct = distinct (names, type, value, pre, post | block | serializer); non-trivial = nested or dynamic type / block longer than one word / any serializer case"
+	st.Rule = "component trees from the ABI type grammar (all 32 uint/int widths, bytes1..32, address, bool, function, string, bytes, fixed-point; T[k] k=0..3, T[], tuples of 0..4 members; every wrapper sequence of depth<=3 over a static and a dynamic base enumerated; named / unnamed / partially named / index-colliding member names); values at 0, +-1, the range ends, sign-bit patterns, dynamic data of length 0/1/31/32/33/64/65; the specification encoding (independent Go transcription, re-checked against Spec.enc in Coq) decoded at offset |pre| with trailing bytes; the minimal / exact-fit family (minimal.go: array and tuple wrappers T[1] T[2] T[3] T[] (T) (u8,T) (T,u8) (string,T,u8) (T,string) stacked to depth 3 over uint256 / bytes / string / bytes3, every dynamic leaf empty or exactly one word, every dynamic array of length 0 / 1 / 2 with minimal elements, T[n] and T[] of n = 4..33 minimal entries, nothing / 1 byte / 32 bytes after the encoding; the same values through DecodeCallData, ParseError and DecodeEventData; those blocks cut by 1/31/32/33/64 bytes, offset words moved to the last word of the block +-1, count words set to the words remaining and one more, blocks ending at the last data byte of a bytes/string/bytes<M> leaf +-1); mutated encodings (truncation/extension at word boundaries +-1, offset and count words replaced by boundary values, byte flips); every serializer combination (3 modes x 4 int x 3 byte x 4 address) with ParseJSON->Encode round trip for object/flat-array modes with hex renderings; string leaves at the edges of UTF-8 validity (ff, truncated / overlong / surrogate / out-of-range sequences: json.Marshal's U+FFFD substitution must equal the model's, the failing denotation is the known finding C03/string-invalid-utf8; U+FFFD, U+D7FF, U+E000 and the range ends of every width as valid neighbours). distinct = distinct (names, type, value, pre, post | block | serializer); non-trivial = nested or dynamic type / block longer than one word / any serializer case"
 	if err := st.Write(filepath.Join(*out, "stats_C03.json")); err != nil {
 		panic(err)
 	}
